@@ -11,7 +11,7 @@ class Stores(V.Family):
     props = ("C20",)
     driver_pkg = "stores"
     monitor = ("StoresTrace.tla", "StoresTrace.cfg")
-    step_keys = ("act", "S", "e", "x", "a", "b", "v", "ks")
+    step_keys = ("act", "S", "e", "x", "a", "b", "v", "ks", "var")
     reset_keys = ("n", "src", "qe")
     assume = [
         "neo-go v0.107.0 compiler/VM/ledger/neotest are faithful to the production platform (transaction atomicity on FAULT, "
